@@ -23,7 +23,7 @@ class PathEnd(Exception):
 
 
 class VC:
-    __slots__ = ("name", "pc", "goal", "meta", "kind")
+    __slots__ = ("name", "pc", "goal", "meta", "kind", "verdict")
 
     def __init__(self, name, pc, goal, meta=None, kind="prove"):
         self.name = name
@@ -31,6 +31,7 @@ class VC:
         self.goal = goal
         self.meta = meta or {}
         self.kind = kind
+        self.verdict = None
 
 
 class Ctx:
@@ -118,7 +119,31 @@ class Ctx:
     def prove(self, z, name, meta=None):
         if isinstance(z, bool):
             z = z3.BoolVal(z)
-        self.vcs.append(VC(name, list(self.pc), z, meta))
+        vc = VC(name, list(self.pc), z, meta)
+        self.vcs.append(vc)
+        if getattr(self, "eager", False):
+            # decide it now with the path's incremental solver (its assertions are exactly the path
+            # condition at this point); anything but a definite answer is left to the full pipeline
+            import time as _t
+            from .solve import Verdict
+            t0 = _t.time()
+            g = z3.simplify(z)
+            if z3.is_true(g):
+                vc.verdict = Verdict(name, "discharged", "simplifier", 0.0, meta=vc.meta, trivial=True, smt_hash="true")
+                return
+            self.solver.push()
+            try:
+                self.solver.add(z3.Not(g))
+                r = guarded_check(self.solver, self.branch_timeout_ms)
+                h = str(hash((name, str(g)[:200])))
+                if r == z3.unsat:
+                    vc.verdict = Verdict(name, "discharged", "z3", _t.time() - t0, meta=vc.meta, smt_hash=h)
+                elif r == z3.sat:
+                    m = self.solver.model()
+                    if z3.is_false(z3.simplify(m.eval(g, model_completion=True))):
+                        vc.verdict = Verdict(name, "failed", "z3", _t.time() - t0, model=m, meta=vc.meta, smt_hash=h)
+            finally:
+                self.solver.pop()
 
     def lemma(self, z, name):
         """a fact the solvers need spelled out: proved as an obligation of its own, then used"""
